@@ -203,15 +203,20 @@ func ruleGroupSpawn(c *Ctx, r *R) {
 	// Stop: cancel under W
 	st := meths["Stop"]
 	if st != nil {
-		h2 := locksIn(st, lockset{})
 		okC := false
-		instrs(st, func(b *ssa.BasicBlock, i int, in ssa.Instruction) {
-			if call, ok := in.(*ssa.Call); ok && strings.HasSuffix(path(call.Call.Value), ".cancel") {
-				if h2[call]["g.m"] == 'W' {
-					okC = true
-				}
+		for _, di := range deepInstrs(st, 2) { // possibly through a lock wrapper: withLock(&g.m, g.cancel)
+			call, ok := di.in.(*ssa.Call)
+			if !ok {
+				continue
 			}
-		})
+			v := argOf(call.Call.Value, di.calls)
+			if ct, isCT := v.(*ssa.ChangeType); isCT {
+				v = ct.X
+			}
+			if strings.HasSuffix(path(v), ".cancel") && deepLocks(st, di)["g.m"] == 'W' {
+				okC = true
+			}
+		}
 		r.ok(okC, "xsync.Group.Stop|cancel-under-write-lock", st.Pos(), "cancel() must be called holding g.m for writing so that no spawn is between its stopped-check and wg.Add")
 	}
 	sw := meths["StopAndWait"]
@@ -669,15 +674,11 @@ var _ = late(func() {
 					return 0, false
 				}
 				// cancel(): a call of a func-typed field / value of the group named by its role: context.CancelFunc
-				if !call.Call.IsInvoke() {
-					if _, isFn := call.Call.Value.(*ssa.Function); !isFn {
-						if t, ok := call.Call.Value.Type().(*types.Named); ok && t.Obj().Name() == "CancelFunc" {
-							if q == 0 {
-								return ss(1), true
-							}
-							return ss(q), true
-						}
+				if isCancelFuncCall(call) {
+					if q == 0 {
+						return ss(1), true
 					}
+					return ss(q), true
 				}
 				if cal := call.Call.StaticCallee(); cal != nil && fname(cal) == "Wait" && cal.Signature.Recv() != nil && isNamedType(cal.Signature.Recv().Type(), "sync", "WaitGroup") {
 					if q == 1 {
@@ -740,5 +741,50 @@ func rebindWorker(w *ssa.Function) {
 	}
 	if w != nil {
 		workerUnbind = bindFuncParams(w)
+	}
+}
+
+// isCancelFuncCall: a call of a context.CancelFunc value - directly, or as the parameter of an unexported helper that is handed a
+// CancelFunc (possibly converted to func()) at every call site.
+func isCancelFuncCall(call *ssa.Call) bool {
+	if call.Call.IsInvoke() {
+		return false
+	}
+	isCF := func(v ssa.Value) bool {
+		if ct, ok := v.(*ssa.ChangeType); ok {
+			v = ct.X
+		}
+		t, ok := v.Type().(*types.Named)
+		return ok && t.Obj().Name() == "CancelFunc" && t.Obj().Pkg() != nil && t.Obj().Pkg().Path() == "context"
+	}
+	switch v := call.Call.Value.(type) {
+	case *ssa.Function, *ssa.Builtin:
+		return false
+	case *ssa.Parameter:
+		if isCF(v) {
+			return true
+		}
+		fn := v.Parent()
+		if fn == nil || fn.Parent() != nil || token.IsExported(fn.Name()) || curCtx == nil {
+			return false
+		}
+		idx := -1
+		for i, q := range fn.Params {
+			if q == v {
+				idx = i
+			}
+		}
+		sites := callCommonsOf(curCtx, fn)
+		if idx < 0 || len(sites) == 0 {
+			return false
+		}
+		for _, cc := range sites {
+			if idx >= len(cc.Args) || !isCF(cc.Args[idx]) {
+				return false
+			}
+		}
+		return true
+	default:
+		return isCF(v)
 	}
 }
